@@ -202,7 +202,12 @@ def build_agg(s):
         for i, m in enumerate(s["mols"]):
             mol = qr.Molecule(list(m["e"]))
             mol.set_dipole(0, 1, list(m["dip"]))
-            cf = qr.CorrelationFunction(ta, dict(ftype="OverdampedBrownian", reorg=m["reorg"], cortime=100.0, T=300.0))
+            if i % 2 == 1:
+                # every second site: a bath of two components (the reorganisation energies add up to the declared one)
+                cf = qr.CorrelationFunction(ta, [dict(ftype="OverdampedBrownian", reorg=0.25 * m["reorg"], cortime=100.0, T=300.0),
+                                                 dict(ftype="OverdampedBrownian", reorg=0.75 * m["reorg"], cortime=60.0, T=300.0)])
+            else:
+                cf = qr.CorrelationFunction(ta, dict(ftype="OverdampedBrownian", reorg=m["reorg"], cortime=100.0, T=300.0))
             mol.set_transition_environment((0, 1), cf)
             if s["mode"] is not None and s["mode"]["mol"] == i:
                 md = qr.Mode(frequency=s["mode"]["freq"])
@@ -215,6 +220,8 @@ def build_agg(s):
         for (i, j, v) in s["coup"]:
             agg.set_resonance_coupling(i, j, v)
     agg.build(mult=s["mult"])
+    # the reorganisation energies as DECLARED (internal units), per molecule: the oracle of the strong-coupling clause
+    agg._verif_declared_reorg = [float(qr.convert(m["reorg"], "1/cm", "int")) for m in s["mols"]]
     _AGG[key] = agg
     return agg
 
@@ -612,8 +619,10 @@ def monitor_transformed_populations(p, ens, start, temp, kB, what):
 def reorg_list(agg, n, start):
     import numpy
     re = numpy.zeros(n - start)
+    decl = getattr(agg, "_verif_declared_reorg", None)
     for i in range(int(agg.Nb[1])):
-        re[i] = agg.sbi.get_reorganization_energy(int(agg.elinds[start + i]) - 1)
+        site = int(agg.elinds[start + i]) - 1
+        re[i] = decl[site] if decl is not None else agg.sbi.get_reorganization_energy(site)
     return re
 
 
